@@ -227,9 +227,18 @@ def run(ctx, replay=None):
             deep.update(trees=dp, reqs=denv["REQOUT"], n=len(dts))
         return deep
 
-    def product(name, reqs, treemod=1, treerem=0, conc="id", trees=trees):
+    def empty_instance():
+        """third bounded instance: zero-length files (content token "") next to non-empty ones, at most 4 nodes"""
+        eenv = {"REQOUT": os.path.join(gen, "empty-reqs.ndjson")}
+        eout, _ = ctx.model_check("DavTreeMC", "DavTreeMC_empty", env=eenv, workers=8)
+        ets = ctx.emitted(eout, "TREE")
+        ep = os.path.join(gen, "empty-trees.ndjson")
+        vlib.write_ndjson(ep, ets)
+        return dict(trees=ep, reqs=eenv["REQOUT"], n=len(ets))
+
+    def product(name, reqs, treemod=1, treerem=0, conc="id", trees=trees, rootstyle=0):
         files, info = _record(ctx, binp, ctx.path("obs", name), mode="product", trees=trees, reqs=reqs, shards=vlib.NCPU,
-                              treemod=treemod, treerem=treerem, conc=conc)
+                              treemod=treemod, treerem=treerem, conc=conc, rootstyle=rootstyle)
         for f in files:
             inputs[f] = {"trees": trees, "reqs": reqs}
         info["universe"] = name
@@ -253,13 +262,18 @@ def run(ctx, replay=None):
             product("main", env["REQOUT"], treemod=2, treerem=ctx.seed % 2)
             d = deep_instance()
             product("deep", d["reqs"], treemod=4, treerem=ctx.seed % 4, trees=d["trees"])
+            e = empty_instance()
+            product("empty-files", e["reqs"], treemod=2, treerem=ctx.seed % 2, trees=e["trees"])
             hists(60, 16, ctx.seed)
         else:
             product("main", env["REQOUT"])
             d = deep_instance()
             product("deep", d["reqs"], trees=d["trees"])
+            e = empty_instance()
+            product("empty-files", e["reqs"], trees=e["trees"])
             product("main-space", env["REQOUT"], treemod=4, treerem=ctx.seed % 4, conc="space")
             product("main-special", env["REQOUT"], treemod=4, treerem=(ctx.seed + 1) % 4, conc="special")
+            product("main-dots", env["REQOUT"], treemod=4, treerem=(ctx.seed + 2) % 4, conc="dots")
             for i in range(4):
                 hists(250, 24, ctx.seed * 10 + i, conc=["id", "space", "special", "dots"][i])
     elif prop == "C02":
@@ -269,13 +283,18 @@ def run(ctx, replay=None):
             product("cond", env["CONDOUT"], treemod=4, treerem=(ctx.seed + 1) % 4)
             d = deep_instance()
             product("deep", d["reqs"], treemod=4, treerem=(ctx.seed + 2) % 4, trees=d["trees"])
+            # names that begin or end with dots (not dot segments): containment and path arithmetic must not be fooled by them
+            product("main-dots", env["REQOUT"], treemod=8, treerem=ctx.seed % 8, conc="dots")
         else:
             product("fault", env["FAULTOUT"])
             product("main", env["REQOUT"])
             d = deep_instance()
             product("deep", d["reqs"], trees=d["trees"])
             product("cond", env["CONDOUT"])
+            product("main-dots", env["REQOUT"], treemod=2, treerem=ctx.seed % 2, conc="dots")
+            product("main-special", env["REQOUT"], treemod=4, treerem=ctx.seed % 4, conc="special")
             hists(300, 24, ctx.seed)
+            hists(150, 24, ctx.seed + 7, conc="dots")
     elif prop == "C17":
         # OS limits: every request of the universe with a 300-byte segment ("a") against trees that only map "b":
         # provokes ENAMETOOLONG in every file-system call site; only the leak bit is judged for this universe
@@ -284,6 +303,9 @@ def run(ctx, replay=None):
                                [{"p": [], "k": "c", "d": "", "n": 0}, {"p": ["b"], "k": "f", "d": "x", "n": 0}],
                                [{"p": [], "k": "c", "d": "", "n": 0}, {"p": ["b"], "k": "c", "d": "", "n": 0}, {"p": ["b", "b"], "k": "f", "d": "y", "n": 0}]])
         product("oslimits", env["REQOUT"], conc="toolong", trees=lt)
+        # configurations: the served directory spelled with a trailing slash, "/.", a doubled separator, a dot-dot detour
+        # (rotating over the recorder's shards); everything else as in the main product
+        product("rootspell", env["REQOUT"], treemod=(8 if q else 2), treerem=(ctx.seed + 3) % (8 if q else 2), rootstyle=-1)
         if q:
             product("main", env["REQOUT"], treemod=4, treerem=ctx.seed % 4)
             product("fault", env["FAULTOUT"], treemod=8, treerem=ctx.seed % 8)
